@@ -223,10 +223,36 @@ func (ma *ModuleAnalyzer) analyzeModuleDependencies(graph *DependencyGraph, file
 				edgeType = DependencyEdgeFromImport
 			}
 
-			// For "from package import name" style imports, resolve through re-exports
-			// to find the actual source module. Each imported name may come from a
-			// different source module, so we need to add edges for each.
-			if len(imp.ImportedNames) > 0 && !imp.IsRelative {
+			// For "from package import name" style imports each imported name may
+			// come from a different module: a submodule of the package, a module
+			// re-exported by the package's __init__.py, or the package itself.
+			isFromImport := imp.IsRelative || !strings.HasPrefix(imp.Statement, "import ")
+			if len(imp.ImportedNames) > 0 && isFromImport {
+				resolvedModules := make(map[string]bool)
+				for _, importedName := range imp.ImportedNames {
+					// "from package import submodule" depends on the submodule
+					if subModule := targetModule + "." + importedName; graph.GetModule(subModule) != nil {
+						resolvedModules[subModule] = true
+						continue
+					}
+					if !imp.IsRelative {
+						if resolvedModule, found := ma.reExportResolver.ResolveReExport(targetModule, importedName); found {
+							resolvedModules[resolvedModule] = true
+							continue
+						}
+					}
+					// Not a submodule or re-export, use the original target
+					resolvedModules[targetModule] = true
+				}
+				// Add dependency for each unique resolved module
+				for resolvedModule := range resolvedModules {
+					// __init__.py importing its own submodules is internal structure (see above)
+					if strings.HasSuffix(filePath, "__init__.py") && strings.HasPrefix(resolvedModule, moduleName+".") {
+						continue
+					}
+					graph.AddDependency(moduleName, resolvedModule, edgeType, imp)
+				}
+			} else if len(imp.ImportedNames) > 0 && !imp.IsRelative {
 				resolvedModules := make(map[string]bool)
 				for _, importedName := range imp.ImportedNames {
 					if resolvedModule, found := ma.reExportResolver.ResolveReExport(targetModule, importedName); found {
